@@ -122,6 +122,20 @@ pub fn id_seq(id: u64) -> u64 {
 
 pub struct IdEntry(pub u64);
 
+/// What some entries do when they are dropped - by the writer thread after they were written, or by whoever displaces
+/// them from a full queue (an entry that owns a child unit of work appends it from its destructor). Keyed by entry id,
+/// filled by the scenario, emptied at the end of every run.
+pub static ON_ENTRY_DROP: Mutex<Option<HashMap<u64, Box<dyn FnOnce() + Send>>>> = Mutex::new(None);
+
+impl Drop for IdEntry {
+    fn drop(&mut self) {
+        let f = ON_ENTRY_DROP.lock().ok().and_then(|mut g| g.as_mut().and_then(|m| m.remove(&self.0)));
+        if let Some(f) = f {
+            f();
+        }
+    }
+}
+
 impl Entry for IdEntry {
     fn write<'a>(&'a self, writer: &mut impl EntryWriter<'a>) {
         writer.value("id", &self.0);
